@@ -604,3 +604,57 @@ func (c *rowCache) GoodCommitAfterLoad(row int) ([]int, error) {
 	}
 	return c.data, nil
 }
+
+// EMPTY-MEANS-BOTH
+type PostingsList struct {
+	postings     *[]uint32
+	normBits1Hit uint64
+	docNum1Hit   uint64
+}
+
+func (p *PostingsList) BadEmptyBeforeOneHit(out *[]uint32) {
+	if p.postings == nil {
+		return
+	}
+	if p.normBits1Hit != 0 {
+		*out = append(*out, uint32(p.docNum1Hit))
+		return
+	}
+	*out = append(*out, *p.postings...)
+}
+
+func (p *PostingsList) GoodOneHitFirst(out *[]uint32) {
+	if p.normBits1Hit != 0 {
+		*out = append(*out, uint32(p.docNum1Hit))
+		return
+	}
+	if p.postings == nil {
+		return
+	}
+	*out = append(*out, *p.postings...)
+}
+
+// EMPTY-VS-NIL
+type runState struct {
+	prev []byte
+	n    int
+}
+
+func (s *runState) step(cur []byte) {
+	if s.prev == nil || !bytesEqual(s.prev, cur) {
+		s.n++
+	}
+	s.prev = append(s.prev[:0], cur...)
+}
+
+func (s *runState) BadResetKeepsBuffer() {
+	s.prev = s.prev[:0]
+	s.n = 0
+}
+
+func (s *runState) GoodResetToNil() {
+	s.prev = nil
+	s.n = 0
+}
+
+func bytesEqual(a, b []byte) bool { return string(a) == string(b) }
